@@ -64,6 +64,10 @@ type errRecorder struct {
 	f        *FuncInfo
 	format   int // parameter index of the format
 	variadic int // parameter index of the operands (variadic)
+	// prefixed: the recorder itself puts "line N: " in front of the formatted message; line is the index of
+	// the parameter N comes from, or -1 when the recorder takes it from the current token itself
+	prefixed bool
+	line     int
 }
 
 func (w *World) errRecorders() map[*types.Func]*errRecorder {
@@ -90,7 +94,29 @@ func (w *World) errRecorders() map[*types.Func]*errRecorder {
 			if !ok || builtinName(info, c) != "append" || len(c.Args) != 2 {
 				return true
 			}
-			sp, ok := unparen(c.Args[1]).(*ast.CallExpr)
+			msg := unparen(c.Args[1])
+			// fmt.Sprintf("line %d: ", line) + fmt.Sprintf(format, args...): the recorder adds the prefix
+			prefixed, lineIdx := false, -1
+			if be, isBE := msg.(*ast.BinaryExpr); isBE && be.Op == token.ADD {
+				if pc, isCall := unparen(be.X).(*ast.CallExpr); isCall && funcIs(calleeOf(info, pc), "fmt", "Sprintf") && len(pc.Args) == 2 && !pc.Ellipsis.IsValid() {
+					if fs, isC := constString(info, pc.Args[0]); isC && strings.HasPrefix(fs, "line %d:") && strings.Count(fs, "%") == 1 {
+						for i := 0; i < sig.Params().Len(); i++ {
+							if objOf(info, pc.Args[1]) == sig.Params().At(i) {
+								prefixed, lineIdx = true, i
+							}
+						}
+						if !prefixed {
+							if ok, _ := w.isCurrentLine(f, pc.Args[1], 0); ok {
+								prefixed = true
+							}
+						}
+						if prefixed {
+							msg = unparen(be.Y)
+						}
+					}
+				}
+			}
+			sp, ok := msg.(*ast.CallExpr)
 			if !ok || !funcIs(calleeOf(info, sp), "fmt", "Sprintf") || len(sp.Args) != 2 || !sp.Ellipsis.IsValid() {
 				return true
 			}
@@ -104,10 +130,66 @@ func (w *World) errRecorders() map[*types.Func]*errRecorder {
 				}
 			}
 			if fi >= 0 && vi == sig.Params().Len()-1 {
-				out[f.Obj] = &errRecorder{f: f, format: fi, variadic: vi}
+				out[f.Obj] = &errRecorder{f: f, format: fi, variadic: vi, prefixed: prefixed, line: lineIdx}
 			}
 			return true
 		})
+	}
+	// wrappers: a variadic function whose body hands its own format and operands on to a recorder
+	for changed := true; changed; {
+		changed = false
+		for _, f := range w.Funcs("parser") {
+			if out[f.Obj] != nil {
+				continue
+			}
+			sig := f.Obj.Type().(*types.Signature)
+			if !sig.Variadic() || sig.Params().Len() < 2 || len(f.Decl.Body.List) != 1 {
+				continue
+			}
+			es, ok := f.Decl.Body.List[0].(*ast.ExprStmt)
+			if !ok {
+				continue
+			}
+			c, ok := es.X.(*ast.CallExpr)
+			if !ok || !c.Ellipsis.IsValid() {
+				continue
+			}
+			inner := out[calleeOf(info, c)]
+			if inner == nil || inner.format >= len(c.Args) || inner.variadic >= len(c.Args) {
+				continue
+			}
+			fi, vi := -1, -1
+			for i := 0; i < sig.Params().Len(); i++ {
+				if objOf(info, c.Args[inner.format]) == sig.Params().At(i) {
+					fi = i
+				}
+				if objOf(info, c.Args[inner.variadic]) == sig.Params().At(i) {
+					vi = i
+				}
+			}
+			if fi < 0 || vi != sig.Params().Len()-1 {
+				continue
+			}
+			rec := &errRecorder{f: f, format: fi, variadic: vi, prefixed: inner.prefixed, line: -1}
+			if inner.prefixed && inner.line >= 0 {
+				if inner.line >= len(c.Args) {
+					continue
+				}
+				isParam := false
+				for i := 0; i < sig.Params().Len(); i++ {
+					if objOf(info, c.Args[inner.line]) == sig.Params().At(i) {
+						rec.line, isParam = i, true
+					}
+				}
+				if !isParam {
+					if ok, _ := w.isCurrentLine(f, c.Args[inner.line], 0); !ok {
+						continue // the line it passes on is not the current token's: judged as an ordinary call site
+					}
+				}
+			}
+			out[f.Obj] = rec
+			changed = true
+		}
 	}
 	return out
 }
@@ -236,6 +318,25 @@ func parserMessagesRule(r *Run, rule string) {
 					return true
 				}
 				con := "message " + short(w.Fset, x)
+				if rec.prefixed {
+					// the recorder writes "line N: " itself; N must be the current token's line
+					if _, inRecorder := recs[f.Obj]; inRecorder && x.Ellipsis.IsValid() {
+						return true // a recorder handing on to another one: judged at its own call sites
+					}
+					switch {
+					case rec.line < 0:
+						r.Ok(rule, f.Name(), con, w.Pos(x.Pos()), "the recorder prefixes \"line N: \" with the current token's LineNumber")
+					case rec.line >= len(x.Args):
+						r.Bad(rule, f.Name(), con, w.Pos(x.Pos()), "a syntax error message must start with 'line N:' taken from a token's LineNumber: no operand for the line")
+					default:
+						if ok, why := w.isCurrentLine(f, x.Args[rec.line], 0); ok {
+							r.Ok(rule, f.Name(), con, w.Pos(x.Pos()), "the recorder prefixes \"line N: \"; N is the current token's LineNumber")
+						} else {
+							r.Bad(rule, f.Name(), con, w.Pos(x.Pos()), "a syntax error message must start with 'line N:' taken from a token's LineNumber: "+why)
+						}
+					}
+					return true
+				}
 				var first ast.Expr
 				if len(x.Args) > rec.variadic && !x.Ellipsis.IsValid() {
 					first = x.Args[rec.variadic]
